@@ -109,6 +109,12 @@ class Linearizer:
                 return Lin(n)
             deps = {("L", x[1])} if x[0] == "local" else set()
             return Lin(0, {("len", ("L", x[1], x[2])): 1}, deps)
+        if x[0] == "field":
+            from .expr import field_path
+            fp = field_path(x)
+            if fp:
+                deps = {("L", y[1]) for y in __import__("analysis.expr", fromlist=["walk"]).walk(x) if y[0] == "local"}
+                return Lin(0, {("len", ("L", -1, fp)): 1}, deps)
         if x[0] == "call" and x[1] in ("std::ops::Index::index", "std::ops::IndexMut::index_mut") and len(x[2]) == 2:
             base, idx = x[2]
             r = range_of(idx)
